@@ -1,5 +1,6 @@
 #!/usr/bin/env python3
 
+import numbers
 import numpy as np
 
 
@@ -75,7 +76,7 @@ class MetropolisHastingsSampler:
         self.targetPdf = targetPdf
         self.proposalCSampler = proposalCSampler
         self.sampleDomain = sampleDomain
-        if isinstance( randomSeed, int ):
+        if isinstance( randomSeed, numbers.Integral ):
             np.random.seed( randomSeed )
     
     def getAcceptanceRatio( self, candi ):
@@ -198,7 +199,7 @@ class AuModifiedMHSampler:
         self.targetPdf = targetPdf
         self.proposalCSampler = proposalCSampler
         self.sampleDomain = sampleDomain
-        if isinstance( randomSeed, int ):
+        if isinstance( randomSeed, numbers.Integral ):
             np.random.seed( randomSeed )
         
     def getAcceptanceRatio( self, candi, i ):
